@@ -23,7 +23,7 @@ impl<'c, 'r, C: ZCol> Visitor<C> for V<'c, 'r> {
         let kind = desc.kind();
         let ctx = &mut *self.ctx;
         let bb = d.bbox();
-        let budget = (bb.size.width as u64 + 40) * (bb.size.height as u64 + 40) * 8 + 4096;
+        let budget = (bb.size.width as u64 + 40) * (bb.size.height as u64 + 40) * 8 + 4096 + desc.overlap_allowance();
         let mut drew_something = false;
         for (bi, bx) in boxes().iter().enumerate() {
             ctx.eval();
